@@ -63,6 +63,7 @@ def run(prog, rep):
     rep.note(f"M1: {len(seen)} functions reachable, {n} panic constructs inspected")
 
     m4(prog, rep)
+    m5(prog, rep)
 
     # ---- M2 domain separation
     b = prog.main_body(M + "init_leaf_hasher")
@@ -264,6 +265,59 @@ def m4(prog, rep):
               "M4", "audit_path_len=steps-to-root",
               "audit_path_len does not count complete_parent steps from the leaf's node until "
               f"the root is reached ({how})", b.describe())
+
+
+def m5(prog, rep):
+    """M5 incremental update (Tree::push / LeafBuilder::drop): after the new leaf is stored, every
+    ancestor up to the root is recomputed as combine(left child, right child) with the children
+    taken from the tree geometry (complete_left_child / complete_right_child of that ancestor,
+    for the current size) - a shortcut for the right child hashes the wrong node for the tree
+    sizes whose right subtree is itself incomplete."""
+    o = "<astria_merkle::LeafBuilder<'_> as core::ops::drop::Drop>::drop"
+    if o not in prog.by_owner:
+        rep.anchor_missing("M5", o)
+        return
+    b = prog.main_body(o)
+    comb = [c for c in b.calls if short_name(c.callee) == "combine_nodes" and not c.expn]
+    sets = [c for c in b.calls if short_name(c.callee) == "set_node" and not c.expn]
+    par = [c for c in b.calls if c.is_(M + "complete_parent")]
+    rep.floor("M5", len(comb), 1, "combine_nodes in LeafBuilder::drop")
+    rep.floor("M5", len(par), 1, "complete_parent in LeafBuilder::drop")
+    for c in comb:
+        a = [b.root(x) for x in c.args]
+        ok = len(a) == 3 and a[1] == "complete_left_child(idx)" and \
+            a[2] == "complete_right_child(idx,len(self.tree))"
+        rep.check(ok, "M5", "ancestor=combine(left-child,right-child)",
+                  f"an ancestor of the new leaf is recomputed from nodes ({a[1][:50]}, {a[2][:60]}) "
+                  "instead of (complete_left_child(idx), complete_right_child(idx, size))", c.where())
+        st = [s_ for s_ in sets if "combine_nodes(" in b.root(s_.args[2])]
+        rep.check(bool(st) and all(b.root(s_.args[1]) == "idx" for s_ in st), "M5",
+                  "ancestor-stored-at-its-index", "the recomputed hash is not stored at the "
+                  "ancestor's own index", c.where())
+    for c in par:
+        a = [b.root(x) for x in c.args]
+        rep.check(a == ["idx", "len(self.tree)"], "M5", "climb=complete_parent(idx,size)",
+                  f"the climb uses complete_parent({a})", c.where())
+    ok, how = must_be_equal_any_exit(b)
+    rep.check(ok, "M5", "climb-ends-at-root",
+              "the ancestor update can stop before the root (complete_root(size)) was recomputed",
+              b.describe(), detail=how)
+
+
+def must_be_equal_any_exit(b):
+    """the loop in LeafBuilder::drop is left only through `idx == complete_root(len(tree))`"""
+    cs = rel(b, "Eq", r"^idx$", r"^complete_root\(len\(self\.tree\)\)$")
+    if not cs:
+        return False, "no `idx == root` test"
+    comb = [c for c in b.calls if short_name(c.callee) == "combine_nodes" and not c.expn]
+    # after a combine, every return passes the equal edge
+    for c in comb:
+        if c.target is None:
+            return False, "combine does not return"
+        for r in b.return_blocks():
+            if r in b.reachable(c.target, removed_edges=set(cs[0].true_edges)):
+                return False, "return reachable without idx == root"
+    return True, "idx == root"
 
 
 def result_some(b):
